@@ -191,7 +191,7 @@ func agentConcurrent(workers, iters, nids int, seed uint64) string {
 				case "stop":
 					err = a.Stop(id)
 				case "process":
-					err = a.Process(&stun.Message{TransactionID: id})
+					err = a.Process(procMessage(id, i+w))
 				case "collect":
 					err = a.Collect(time.Unix(0, in.t))
 				case "close":
